@@ -520,7 +520,6 @@ func TestVerifC30Exec(t *testing.T) {
 		jumpi := rapid.Bool().Draw(rt, "jumpi")
 		cond := rapid.SampledFrom([]byte{1, 2, 0x80, 0xff}).Draw(rt, "cond")
 		wideAll := rapid.Bool().Draw(rt, "wide")
-		_, _, _ = jumpi, cond, wideAll
 		prefixLen := 4
 		if wideAll {
 			prefixLen = 34
@@ -530,10 +529,17 @@ func TestVerifC30Exec(t *testing.T) {
 		}
 		total := prefixLen + len(body)
 		// candidate targets: every 0x5b byte of the body (valid or not), plus others
-		var jd []uint64
-		for i, b := range body {
-			if b == 0x5b {
-				jd = append(jd, uint64(prefixLen+i))
+		var jd, good []uint64
+		{
+			probe, _, _ := c30JumpProgram(uint256.NewInt(0), wideAll, jumpi, cond, body)
+			pinf := c30Ref(probe) // the prefix pushes are complete, so body validity does not depend on the target bytes
+			for i, b := range body {
+				if b == 0x5b {
+					jd = append(jd, uint64(prefixLen+i))
+					if pinf.valid[prefixLen+i] {
+						good = append(good, uint64(prefixLen+i))
+					}
+				}
 			}
 		}
 		ntargets := rapid.IntRange(1, 5).Draw(rt, "ntargets")
@@ -544,6 +550,8 @@ func TestVerifC30Exec(t *testing.T) {
 			var target *uint256.Int
 			kind := rapid.IntRange(0, 9).Draw(rt, "tkind")
 			switch {
+			case kind <= 2 && len(good) > 0:
+				target = uint256.NewInt(rapid.SampledFrom(good).Draw(rt, "tgood"))
 			case kind <= 5 && len(jd) > 0:
 				target = uint256.NewInt(rapid.SampledFrom(jd).Draw(rt, "tjd"))
 			case kind <= 7:
